@@ -90,14 +90,10 @@ Example C01_errors_example :
   = CErr ProportionGiven 0 3%N.
 Proof. vm_compute. split; reflexivity. Qed.
 
-(** NOT proved here (kept visible):
-    C01_compile_refines_spec : compile_ast p = spec_compile p  - the full refinement to the
-    pointer-based specification resolve ; fold ; embed of DESIGN.md Appendix C (which definitions end up
-    folded, and that the grafted tree is exactly the defining tree).  Proved parts: resolution (above), the
-    fold rule at a definition's turn (above), that folding changes nothing but deletes roots once references
-    are followed (above / C05), structural crash-freedom and strict validity (Props/C01inv.v when present).
-    The full statement is checked by the oracle rgv/oracles/spec_compile.py against the implementation on
-    every generated program. *)
+(** The FULL statement - compile_ast p = sym_compile p, the refinement to the short name-based
+    specification resolve ; fold ; embed of Spec/CompileSym.v (which definitions end up folded, and that the
+    grafted tree is exactly the defining tree) - is proved in Props/C01ref.v (C01_compile_refines_sym), on top of
+    the invariants of Props/C01inv.v.  The theorems above are its readable parts. *)
 
 Print Assumptions C01_pass1_refines_resolve.
 Print Assumptions C01_rejects_exactly_documented.
